@@ -3,6 +3,7 @@
 package codec
 
 import (
+	"reflect"
 	"sync"
 	"testing"
 	"time"
@@ -107,22 +108,48 @@ func (c *groupClient) take() []sim.Frame {
 
 // inject delivers a cEMI message to the client and reports what surfaces on the group channel.
 var injSeq = map[*groupClient]int{}
+var sentinelLost = map[*groupClient]int{}
 
-func (c *groupClient) inject(m cemi.Message) (GE, bool) {
+// sentinel is a group write that every group client surfaces; it follows each injected frame, so that "the frame produced
+// no event" is decided by what arrives (the sentinel first) and not by a clock: the clients deliver in arrival order.
+var sentinel = knx.GroupEvent{Command: knx.GroupWrite, Source: 0xfffd, Destination: 0xfffe, Data: []byte{0x00, 0xa5, 0x5a, 0xc3, 0x3c, 0x96}}
+
+func isSentinel(ev knx.GroupEvent) bool {
+	return reflect.DeepEqual(ev.Data, sentinel.Data) // (by its payload alone: a defect may mangle the other fields on the way)
+}
+
+func (c *groupClient) arrive(m cemi.Message) {
 	if c.via == "router" {
 		c.sock.Arrive(sim.Build(&knxnet.RoutingInd{Payload: m}))
 	} else {
 		c.sock.Arrive(sim.Build(&knxnet.TunnelReq{Channel: 9, SeqNumber: uint8(injSeq[c]), Payload: m}))
 		injSeq[c]++
 	}
-	select {
-	case ev, ok := <-c.in:
-		if !ok {
-			return noGE(), false
+}
+
+func (c *groupClient) inject(m cemi.Message) (GE, int) {
+	c.arrive(m)
+	c.arrive(&cemi.LDataInd{LData: cemi.LData{Control1: 0xbc, Control2: 0xe0, Source: sentinel.Source, Destination: uint16(sentinel.Destination),
+		Data: &cemi.AppData{Command: cemi.GroupValueWrite, Data: sentinel.Data}}})
+	wait := 3 * time.Second
+	if sentinelLost[c] > 0 {
+		wait = 5 * time.Millisecond
+	}
+	got, n := noGE(), 0 // n = number of events the frame produced (the judge wants 0 or 1; the first is compared)
+	for {
+		select {
+		case ev, ok := <-c.in:
+			if !ok || isSentinel(ev) {
+				return got, n
+			}
+			if n == 0 {
+				got = geTo(ev)
+			}
+			n++
+		case <-time.After(wait):
+			sentinelLost[c]++ // (the sentinel itself got lost or came back unrecognisable: from now on a short clock decides)
+			return got, n
 		}
-		return geTo(ev), true
-	case <-time.After(4 * time.Millisecond):
-		return noGE(), false
 	}
 }
 
@@ -189,8 +216,8 @@ func TestC12(t *testing.T) {
 				ind := r.F
 				ind.Code = 0x29
 				e := groupRec{K: "group", Op: "e2e", Via: via, Ev: ev, F: cemiTo(nil), Msg: ind, GEv: noGE()}
-				g, ok := b.inject(ind.message())
-				e.Got, e.GEv = B2i(ok), g
+				g, n := b.inject(ind.message())
+				e.Got, e.GEv = n, g
 				o.Rec(e)
 			}
 		}
@@ -209,8 +236,8 @@ func TestC12(t *testing.T) {
 							continue
 						}
 						r := groupRec{K: "group", Op: "in", Via: via, Ev: noGE(), F: cemiTo(nil), Msg: cemiTo(m.message()), GEv: noGE()}
-						g, ok := b.inject(m.message())
-						r.Got, r.GEv = B2i(ok), g
+						g, n := b.inject(m.message())
+						r.Got, r.GEv = n, g
 						o.Rec(r)
 					}
 				}
